@@ -7,6 +7,6 @@ CHECKERS = dict(C19_rt.CHECKERS)
 
 def run(ctx):
     api.run_vcs(ctx, C19_vc.vcs(ctx), {
-        "C19.srswor.cardinality": "fixed-cardinality sampling: loop invariant on the real sampler, symbolic vector size: exactly `given` ones, all below `total`; bernoulli probabilities in [0,1]",
-        "C19.lb.threshold_csample": "LogisticBernoulli: threshold(csample(b)) = b for all probabilities, noise and b (sign axioms of log)"})
+        "C19.P.srswor_cardinality": "fixed-cardinality sampling: loop invariant on the real sampler, symbolic vector size: exactly `given` ones, all below `total`; bernoulli probabilities in [0,1]",
+        "C19.P.lb_threshold_csample": "LogisticBernoulli: threshold(csample(b)) = b for all probabilities, noise and b (sign axioms of log)"})
     C19_rt.run_bounded(ctx)
